@@ -168,6 +168,31 @@ pub fn lc_table(text: &str) -> Json {
     )
 }
 
+/// the generator's expectations about names and extents, in byte offsets of the laid-out text
+pub fn spans_json(rd: &doc::Rendered, laid: &doc::Laid) -> Json {
+    let ts = &laid.tok_spans;
+    Json::Arr(
+        rd.spans
+            .iter()
+            .map(|sp| {
+                let has_name = sp.name_first <= sp.name_last && sp.name_last < ts.len();
+                // end of the last annotation token (the full range may start anywhere from there on)
+                let ann_end = if sp.has_ann && sp.first > 0 { Json::n(ts[sp.first - 1].1) } else { Json::Null };
+                Json::obj(vec![
+                    ("what", Json::s(sp.what)),
+                    ("name", Json::s(sp.name.clone())),
+                    ("ns", if has_name { Json::n(ts[sp.name_first].0) } else { Json::Null }),
+                    ("ne", if has_name { Json::n(ts[sp.name_last].1) } else { Json::Null }),
+                    ("first", Json::n(ts[sp.first.min(ts.len() - 1)].0)),
+                    ("last_end", Json::n(ts[sp.last.min(ts.len() - 1)].1)),
+                    ("term_end", sp.terminator.map(|t| Json::n(ts[t].1)).unwrap_or(Json::Null)),
+                    ("ann_end", ann_end),
+                ])
+            })
+            .collect(),
+    )
+}
+
 /// the syntax stage alone: what `add_content` stores for each text
 pub fn parse_case(files: &Files, extra: Vec<(&'static str, Json)>) -> Vec<(&'static str, Json)> {
     let r = catch_unwind(AssertUnwindSafe(|| {
@@ -747,6 +772,82 @@ pub fn run(suite: &str, thorough: bool, seed: u64, shard: usize, nshards: usize,
                 em.case(s, parse_case(&vec![("f".to_owned(), text)], vec![("expect_sx", Json::s(doc::sx_doc(&d)))]));
             }
         }
+        // C02: every document in three layouts; C04: exact name / extent expectations
+        "layouts" => {
+            let n = share(if thorough { 8000 } else { 150 });
+            for _ in 0..n {
+                let s = rng.next();
+                let mut r = Rng::new(s);
+                let cfg = gen::DocCfg { max_depth: 4, ..Default::default() };
+                let d = gen::gen_document(&mut r, &cfg);
+                let rd = doc::render(&d);
+                for style in [LayoutStyle::Plain, LayoutStyle::Tight, LayoutStyle::Wild, LayoutStyle::Wild] {
+                    let laid = doc::layout(&rd.toks, style, &mut r);
+                    let extra = vec![
+                        ("expect_sx", Json::s(doc::sx_doc(&d))),
+                        ("expect_spans", spans_json(&rd, &laid)),
+                        ("verdict", Json::s("wf")),
+                    ];
+                    em.case(s, parse_case(&vec![("f".to_owned(), laid.text)], extra));
+                }
+            }
+        }
+        // C03: documents that are malformed by construction
+        "malformed" => {
+            let n = share(if thorough { 6000 } else { 150 });
+            let words: Vec<&str> = vec![
+                "package", "import", "interface", "parcelable", "enum", "oneway", "const", "inout", "in", "out", "void",
+                "byte", "short", "int", "long", "float", "double", "boolean", "char", "String", "CharSequence", "List", "Map",
+                "true", "false", "break", "case", "catch", "class", "continue", "default", "do", "else", "for", "goto", "if",
+                "new", "private", "protected", "public", "return", "static", "switch", "this", "throw", "try", "volatile", "while",
+            ];
+            for i in 0..n {
+                let s = rng.next();
+                let mut r = Rng::new(s);
+                let cfg = gen::DocCfg { max_members: 4, ..Default::default() };
+                let d = gen::gen_document(&mut r, &cfg);
+                let rd = doc::render(&d);
+                let mut toks = rd.toks.clone();
+                let how;
+                match i % 5 {
+                    0 | 1 => {
+                        // a keyword / reserved word in a name slot (any span's name token)
+                        let named: Vec<&doc::Span> = rd.spans.iter().filter(|sp| sp.name_first <= sp.name_last && sp.what != "type").collect();
+                        let sp = *r.pick(&named);
+                        let k = r.range(sp.name_first, sp.name_last);
+                        if toks[k].text == "." {
+                            continue;
+                        }
+                        toks[k].text = (*r.pick(&words)).to_owned();
+                        how = "keyword as name";
+                    }
+                    2 => {
+                        // omit the package statement
+                        let end = rd.spans[0].terminator.unwrap();
+                        toks.drain(0..=end);
+                        how = "package omitted";
+                    }
+                    3 => {
+                        // a second item after the first
+                        let d2 = gen::gen_document(&mut r, &cfg);
+                        let rd2 = doc::render(&d2);
+                        let item = rd2.spans.iter().find(|sp| sp.what == "item").unwrap();
+                        toks.extend(rd2.toks[item.first_with_ann..=item.last].iter().cloned());
+                        how = "several items";
+                    }
+                    _ => {
+                        // trailing text
+                        for _ in 0..r.range(1, 3) {
+                            toks.push(doc::Tok { text: (*r.pick(&[";", "foo", "}", "interface", "12", "@A", "{"])).to_owned(), pre_comment: None });
+                        }
+                        how = "trailing text";
+                    }
+                }
+                let style = if r.chance(1, 2) { LayoutStyle::Plain } else { LayoutStyle::Wild };
+                let text = doc::layout(&toks, style, &mut r).text;
+                em.case(s, parse_case(&vec![("f".to_owned(), text)], vec![("verdict", Json::s("bad")), ("how", Json::s(how))]));
+            }
+        }
         // malformed inputs: token mutations of well-formed documents, token soups, character soups,
         // unterminated strings / comments, multi-byte injection
         "mutate" => {
@@ -837,9 +938,17 @@ pub fn rerun(line: &str) -> Option<String> {
         }
         "parse" => {
             let mut extra = Vec::new();
-            for k in ["expect_sx", "garbage", "expect_tokens", "docs"] {
+            for k in ["expect_sx", "expect_spans", "verdict", "how", "garbage", "docs"] {
                 if let Some(x) = j.get(k) {
-                    extra.push((match k { "expect_sx" => "expect_sx", "garbage" => "garbage", "expect_tokens" => "expect_tokens", _ => "docs" }, x.clone()));
+                    let key: &'static str = match k {
+                        "expect_sx" => "expect_sx",
+                        "expect_spans" => "expect_spans",
+                        "verdict" => "verdict",
+                        "how" => "how",
+                        "garbage" => "garbage",
+                        _ => "docs",
+                    };
+                    extra.push((key, x.clone()));
                 }
             }
             v.append(&mut parse_case(&files, extra))
